@@ -39,7 +39,7 @@ class FakeConn:
         self.log.append(("send", type(r).__name__, getattr(r, "ping_id", None), self.clock.seconds()))
 
     def disconnect(self):
-        self.log.append(("disconnect", self.clock.seconds()))
+        self.log.append(("disconnect", self.clock.seconds(), id(self)))
 
     def pauseProducing(self):
         pass
@@ -197,8 +197,19 @@ class Monitor(Job):
                         check(False, "monitoring did not resume on the next connection: %s raised" % type(e).__name__)
                         return
                     check(m._timer is not None and m._timer.active(), "monitoring did not resume on the next connection")
+                    # the replacement connection is silent from the start: the monitor drops IT (not some earlier connection) within three intervals
+                    t2 = clock.seconds()
+                    for _ in range(4):
+                        dcs = clock.getDelayedCalls()
+                        if not dcs or any(e[0] == "disconnect" and len(e) > 2 and e[2] == id(c2) for e in log):
+                            break
+                        clock.fire(dcs[clock.earliest([dc.when for dc in dcs])])
+                    d2 = [e for e in log if e[0] == "disconnect" and len(e) > 2 and e[2] == id(c2)]
+                    check(bool(d2), "a silent replacement connection was not dropped by the monitor")
+                    if d2:
+                        check(d2[0][1] < t2 + I * 3, "a silent replacement connection was kept for three ping intervals or more")
                     eng().note("nt:lost-quiet")
-                    pongs = []
+                    return
             disc = [e for e in log if e[0] == "disconnect"]
             sends = [e for e in log if e[0] == "send" and e[1] == "Ping"]
             if self.mode == "follower":
@@ -291,8 +302,21 @@ class Monitor(Job):
                         return "interval %r: monitoring did not resume on the next connection: %r raised" % (I, e)
                     if m._timer is None or not m._timer.active():
                         return "interval %r: monitoring did not resume on the next connection" % (I,)
-                    pongs = []
-                    continue
+                    c2 = [e for e in [None]]
+                    conn2 = m._connection
+                    t2 = clock.seconds()
+                    for _ in range(4):
+                        dcs = clock.getDelayedCalls()
+                        if not dcs or any(e[0] == "disconnect" and len(e) > 2 and e[2] == id(conn2) for e in log):
+                            break
+                        nxt = min(dc.getTime() for dc in dcs)
+                        clock.advance(max(0, nxt - clock.seconds()))
+                    d2 = [e for e in log if e[0] == "disconnect" and len(e) > 2 and e[2] == id(conn2)]
+                    if not d2:
+                        return "interval %r: the silent replacement connection was never dropped (disconnects: %r)" % (I, [e[:2] for e in log if e[0] == "disconnect"])
+                    if d2[0][1] >= t2 + 3 * I:
+                        return "interval %r: the silent replacement connection was kept until %r" % (I, d2[0][1])
+                    return None
                 cands = [("timer", dc.getTime(), dc) for dc in dcs] + [("pong", p[0], p) for p in pongs]
                 if not cands:
                     break
